@@ -542,6 +542,20 @@ func run(c Case) (pbt.Outcome, error) {
 					gotV[k+0] += v
 					total += v
 				}
+				// every upper bound of the reference tiling must be a key (an empty non-nil spec may
+				// mean the single all-covering bucket or the defaults: not judged)
+				if !altSingle {
+					dv := map[float64]bool{}
+					for _, p := range vpairs {
+						dv[p.Hi+0] = true
+						if _, ok := hs.Values()[p.Hi]; !ok {
+							errs.Addf("snapshot lacks the upper bound %v of the reference tiling %v", p.Hi, vpairs)
+						}
+					}
+					if len(hs.Values()) != len(dv) {
+						errs.Addf("snapshot has %d value bounds %v, want %d", len(hs.Values()), hs.Values(), len(dv))
+					}
+				}
 			}
 		}
 	}
